@@ -417,7 +417,9 @@ pub fn run_typed(cfg: &Cfg, rep: &mut Report) {
                     TV::Bytes(s)
                 }
                 TK::Chr => {
-                    let s: &[u8] = *rng.pick(&[&b"ABC"[..], b"x", b"Z9_y", b"MAXimum", b"B"]);
+                    // ordinary words and every word that is a keyword for some parameter type: to a handler asking
+                    // for character data they are all just elements of its unit
+                    let s: &[u8] = *rng.pick(&[&b"ABC"[..], b"x", b"Z9_y", b"MAXimum", b"B", b"DEF", b"DEFault", b"default", b"MIN", b"max", b"UP", b"DOWN", b"ON", b"OFF", b"INF", b"NINF", b"NAN", b"ONCE", b"AUTO"]);
                     msg.extend_from_slice(s);
                     TV::Bytes(s.to_vec())
                 }
